@@ -55,3 +55,20 @@ Print Assumptions c07_negligible.
 Theorem c07_strip_idem : forall s, strip (strip s) = strip s.
 Proof. exact strip_idem. Qed.
 Print Assumptions c07_strip_idem.
+
+(** (d) whole-extractor layout invariance at table level on the core fragment (corollary of Lemma A,
+    Tree/LemmaAProofs.v): whatever trivia (whitespace, newlines, comments, meta segments) is put at any of the
+    gaps of a statement of the fragment, the tables read and written are the same. *)
+From SV Require Import Tree.Render Tree.LemmaA Tree.LemmaAProofs.
+
+Theorem c07_tables_layout_invariant_on_core : forall n1 n2 e s,
+  noise_ok n1 = true -> noise_ok n2 = true -> env_ok e = true -> stmt_ok s = true -> sshape s = true ->
+  stmt_reads (analyze e false (r_stmt n1 s)) = stmt_reads (analyze e false (r_stmt n2 s)) /\
+  stmt_writes (analyze e false (r_stmt n1 s)) = stmt_writes (analyze e false (r_stmt n2 s)).
+Proof.
+  intros n1 n2 e s H1 H2 He Hs Hq.
+  destruct (lemma_A_tables_restricted n1 e s H1 He Hs Hq) as [R1 W1].
+  destruct (lemma_A_tables_restricted n2 e s H2 He Hs Hq) as [R2 W2].
+  split; congruence.
+Qed.
+Print Assumptions c07_tables_layout_invariant_on_core.
